@@ -68,6 +68,7 @@ type Pipe struct {
 	depth  int
 	nq     int
 	dead   bool
+	Poisoned bool // a stray "canceled" error was seen: answers are Unknown until restarted
 	Logic  string
 	Log    io.Writer
 	logBuf *strings.Builder
@@ -154,22 +155,56 @@ func (p *Pipe) readLine() (string, error) {
 }
 
 // Check runs (check-sat) with the given timeout.
+// The answer is delimited by an echo marker: z3 can emit a stray
+// `(error "... canceled")` line when its timeout timer fires late (seen with
+// FP queries and short timeouts); reading exactly one line per query would then
+// pair later queries with earlier answers. After such an error the pipe is
+// poisoned: every further Check answers Unknown (callers treat that
+// conservatively) until the engine restarts the pipe.
 func (p *Pipe) Check(timeout time.Duration) Result {
 	if p.dead {
 		return Error
 	}
+	if p.Poisoned {
+		return Unknown
+	}
 	start := time.Now()
 	p.nq++
-	p.send(fmt.Sprintf("(set-option :timeout %d)\n(check-sat)\n", timeout.Milliseconds()))
-	l, err := p.readLine()
+	marker := fmt.Sprintf("verif-sync-%d", p.nq)
+	p.send(fmt.Sprintf("(set-option :timeout %d)\n(check-sat)\n(echo \"%s\")\n", timeout.Milliseconds(), marker))
+	ans, errLine := "", ""
+	for {
+		l, err := p.readLine()
+		if err != nil {
+			Global.add("z3new-pipe", time.Since(start))
+			return Error
+		}
+		if l == marker || l == "\""+marker+"\"" {
+			break
+		}
+		switch {
+		case l == "sat" || l == "unsat" || l == "unknown":
+			ans = l
+		case strings.HasPrefix(l, "(error"):
+			errLine = l
+		default:
+			fmt.Fprintln(os.Stderr, "z3 pipe unexpected:", l)
+			errLine = l
+		}
+	}
 	Global.add("z3new-pipe", time.Since(start))
 	if os.Getenv("VERIF_SLOWQ") != "" {
-		fmt.Fprintf(os.Stderr, "Q %d ms %s\n", time.Since(start).Milliseconds(), l)
+		fmt.Fprintf(os.Stderr, "Q %d ms %s %s\n", time.Since(start).Milliseconds(), ans, errLine)
 	}
-	if err != nil {
+	if errLine != "" {
+		if strings.Contains(errLine, "canceled") {
+			p.Poisoned = true
+			return Unknown
+		}
+		fmt.Fprintln(os.Stderr, "z3 pipe:", errLine)
 		return Error
 	}
-	switch l {
+	switch ans {
 	case "sat":
 		return Sat
 	case "unsat":
@@ -177,11 +212,6 @@ func (p *Pipe) Check(timeout time.Duration) Result {
 	case "unknown":
 		return Unknown
 	}
-	if strings.HasPrefix(l, "(error") {
-		fmt.Fprintln(os.Stderr, "z3 pipe:", l)
-		return Error
-	}
-	fmt.Fprintln(os.Stderr, "z3 pipe unexpected:", l)
 	return Error
 }
 
